@@ -232,6 +232,23 @@ pub async fn run(args: &ShardArgs, rep: &mut Report) {
 				place(dir, name, actual);
 				desc.push(format!("{lvl}:{name}:{actual:?}"));
 			}
+			// decoys with a marker's name that are neither a regular file nor a directory under any reading: a dangling
+			// symbolic link and a FIFO (a link to an existing file or directory is left out: whether that counts as the
+			// marker depends on whether links are followed, which the statement does not say)
+			if rng.chance(1, 5) {
+				let (name, _) = *rng.pick(&all_names);
+				if std::fs::symlink_metadata(dir.join(name)).is_err() {
+					let made = if rng.chance(1, 2) {
+						std::os::unix::fs::symlink("does-not-exist-anywhere", dir.join(name)).is_ok()
+					} else {
+						std::process::Command::new("mkfifo").arg(dir.join(name)).status().map_or(false, |s| s.success())
+					};
+					if made {
+						desc.push(format!("{lvl}:not-a-file-nor-dir:{name}"));
+						rep.count("decoys_dangling_link_or_fifo_named_like_a_marker", 1);
+					}
+				}
+			}
 			// decoys that are not markers: an unrelated file, and names that differ from a marker by letter case only
 			if rng.chance(1, 3) {
 				std::fs::write(dir.join("README"), "x").ok();
